@@ -322,8 +322,13 @@ CCall(qe, q) ==
                       (IF \E y \in xs : y < 1 \/ F[y].ctx # dc THEN {V({"C06"}, "cat-foreign-context", o)} ELSE {})
                       \cup (IF xs \cap Idx # {i \in Idx : F[i].ctx = dc /\ i <= m} THEN {V({"C06", "C01"}, "cat-not-the-context-history", o)} ELSE {})
                     : o \in {o \in Resp : Len(F[o].c.x) > 0}} ELSE {})
-  IN [v |-> IF DCode = 0 THEN {V({"C19"}, "undefined-command-answered", i) : i \in Resp} ELSE body(DCode),
-      k |-> IF DCode # DProp /\ Resp # {} THEN {"C19-command-name-keyed"} ELSE {}]
+      \* the definition that answers: the caller's own context's (as the property reads, and as the code does since
+      \* the table is keyed by (context, name)); a response stamped by another context's definition of the name
+      \* is the formerly coded behaviour and is recognised as such (key C19-command-name-keyed)
+      ByName == DCode # DProp /\ \E i \in Resp : F[i].cid = DCode
+      D == IF ByName THEN DCode ELSE DProp
+  IN [v |-> IF D = 0 THEN {V({"C19"}, "undefined-command-answered", i) : i \in Resp} ELSE body(D),
+      k |-> IF ByName THEN {"C19-command-name-keyed"} ELSE {}]
 
 CDefs(qe) ==
   UNION {
@@ -361,7 +366,11 @@ GSpawn(qe, g) ==
         {h \in Spawns : h # g /\ F[h].name = n /\
              IF F[h].inc = j THEN h < g /\ {i \in Idx : F[i].sid = h /\ F[i].suf = "start" /\ F[i].inc = j} # {}
              ELSE F[h].inc < j /\ {i \in Idx : F[i].sid = h /\ F[i].suf = "start" /\ F[i].inc = j} # {}}
-      refusedAsCoded == k.nocontent \/ Holder(j0) # {}
+      HolderSame == {h \in Holder(j0) : F[h].ctx = c}
+      \* a spawn is refused when it has no content or the (context, name) is taken; refused because the NAME is
+      \* taken in another context is the formerly coded behaviour (table keyed by name), recognised as such
+      ByName == ~k.nocontent /\ HolderSame = {} /\ Holder(j0) # {} /\ Refusals # {}
+      refusedAsCoded == k.nocontent \/ HolderSame # {} \/ ByName
       values == k.values
       nv == Len(values)
       \* the lifecycle grammar over the frames of one incarnation, in id order
@@ -435,6 +444,7 @@ GSpawn(qe, g) ==
                         /\ F[Max(SpawnTraffic(j))].suf = "spawn.error" /\ F[Max(SpawnTraffic(j))].sid < g
                   THEN {"C17-generator-spawn-error-shadows"} ELSE {})
             \cup (IF \E j \in j0..MaxInc(qe) : DupKnown(j) THEN {"C06-generator-duplex-cross-context-send"} ELSE {})
+            \cup (IF ByName THEN {"C17-generator-name-keyed"} ELSE {})
   IN [v |-> IF refusedAsCoded THEN refused ELSE accepted, k |-> kn]
 
 GStray ==
